@@ -53,12 +53,7 @@ namespace Ctl
 @[simp] theorem dropLeader_rf (c : Ctl) : c.dropLeader.rf = c.rf := rfl
 @[simp] theorem startReset_rf (c : Ctl) : c.startReset.rf = c.rf := rfl
 @[simp] theorem reserve_rf (c : Ctl) (s : Nat) : (c.reserve s).rf = c.rf := rfl
-theorem stepStart_rf (c : Ctl) (addr : String) (cok : Bool) (size : Nat) (swo : Bool)
-    (clone : String) (srw : Bool) (rev : Option Nat) (ck : CkEnv) :
-    (c.stepStart addr cok size swo clone srw rev ck).1.rf = c.rf := by
-  unfold stepStart; simp only
-  repeat' split
-  all_goals simp
+@[simp] theorem adoptSize_rf (c : Ctl) (s : Nat) : (c.adoptSize s).rf = c.rf := by unfold adoptSize; split <;> rfl
 theorem canAdd_rf (c : Ctl) (a : String) (tk : Option Bool) (c1 : Ctl) (e : c.canAdd a tk = some c1) : c1.rf = c.rf := by
   unfold canAdd at e
   split at e
@@ -68,6 +63,34 @@ theorem canAdd_rf (c : Ctl) (a : String) (tk : Option Bool) (c1 : Ctl) (e : c.ca
     · split at e
       · cases e; simp
       · cases e
+theorem startOne_rf (c : Ctl) (e : StartEnv) : (c.startOne e).1.rf = c.rf := by
+  unfold startOne; simp only
+  split
+  · rfl
+  · split
+    · simp
+    · split
+      · simp
+      · rename_i c1 ec
+        have := canAdd_rf _ _ _ _ ec
+        split
+        · simp [this]
+        · split
+          · simp [this]
+          · split <;> simp [this]
+theorem startLoop_rf (es : List StartEnv) : ∀ c : Ctl, (c.startLoop es).1.rf = c.rf := by
+  induction es with
+  | nil => intro c; rfl
+  | cons e es ih =>
+    intro c; unfold startLoop; split
+    · rw [ih, startOne_rf]
+    · exact startOne_rf c e
+theorem stepStart_rf (c : Ctl) (es : List StartEnv) (ck : CkEnv) : (c.stepStart es ck).1.rf = c.rf := by
+  unfold stepStart
+  split
+  · rfl
+  · repeat' split
+    all_goals simp [startLoop_rf]
 theorem attachNew_rf (c : Ctl) (a : String) (i : Nat) (sf : List String) (n s : Bool) (ck : CkEnv) :
     (attachNew c a i sf n s ck).1.rf = c.rf := by
   unfold attachNew; simp only
@@ -144,7 +167,7 @@ theorem step_rf (c : Ctl) (op : CtlOp) : (c.step op).1.rf = c.rf := by
   unfold step
   cases op with
   | register r so al el => simp
-  | start a cok sz swo cl srw rev ck => simp [stepStart_rf]
+  | start es ck => simp [stepStart_rf]
   | add a tk cok sf nso swo ck => simp [stepAdd_rf]
   | addPre a tk => simp [stepAddPre_rf]
   | addPost a tk cok sf nso swo ck => simp [stepAddPost_rf]
